@@ -347,6 +347,7 @@ type txTrack struct {
 	states   []client.TxState
 	times    []int64
 	gens     []int
+	held     []string
 	tx       *client.Tx
 }
 
@@ -374,6 +375,7 @@ func (w *World) tracks(handler int) map[string]*txTrack {
 		t.states = append(t.states, e.State)
 		t.times = append(t.times, e.At)
 		t.gens = append(t.gens, e.NodeID)
+		t.held = append(t.held, e.Held)
 	}
 	return out
 }
@@ -561,6 +563,9 @@ func (w *World) oracleFlags(final bool) {
 			}
 			if s.MerkleProof != nil {
 				w.checkProof(n, s)
+				if t.held[i] != "" {
+					w.fail("C04", "proof-against-held-header", "proof is for a header the node does not hold at that height when it notifies", fmt.Sprintf("tx %s notification %d: the node holds %s, the proof's header is %s", n, i, t.held[i], mp8(s)))
+				}
 			}
 		}
 		if safeReports > 1 {
@@ -1086,4 +1091,8 @@ func (w *World) evictedBefore(name string, t int64) bool {
 		}
 	}
 	return false
+}
+
+func mp8(s client.TxState) string {
+	return s.MerkleProof.BlockHeader.BlockHash().String()[:8]
 }
